@@ -353,8 +353,8 @@ def inputs_for(repo, functions, workdir, limit=60):
         d = json.load(open(cp))
         return {k: [(t, bytes.fromhex(h)) for t, h in v] for k, v in d.items()}
     for f in functions:
-        if f not in defs or f not in ties:
-            continue
+        if f not in defs or f not in ties or f in build.HEADERS:
+            continue      # (the slice/Vec functions are not reader programs: no path conditions over an input to solve)
         obs = [t for lvl, t in ties[f] if lvl != 'terms equal']
         if not obs:
             continue
